@@ -9,9 +9,13 @@ from .. import proto
 from .. import thr_common
 from ..core import Check, Problem, register
 
-TOL = 1e-12
-EPS = F(1, 10 ** 12)          # slack on p0 + p1 = 1 (fitted floats)
+# R1 review: measured on the clean tree (180 fitted models, seeds 0-2): max |reported p - exact p| = 1.1e-16 (thresholder
+# and EG mixture), max |p0 + p1 - 1| of a fitted rule = 5.6e-17, |pmf0 + pmf1 - 1| = 0; the bounds below are < 100x that
+# (they were 1e-12).  A priori: <= 4 roundings on the thresholder path, <= T <= 20 on the EG dot product (2.2e-15).
+TOL = 1e-14
+EPS = F(1, 10 ** 14)          # slack on p0 + p1 = 1 (fitted floats)
 ALPHA = 1e-9                  # false-alarm bound per binomial test (two-sided: 5e-10 per tail)
+ALPHA_POOL = 1e-10            # false-alarm bound of the pooled (Hoeffding) frequency test, one per classification model
 N_SEEDS = 400
 N_SEEDS_DET = 40             # models whose reported pmf is 0/1 on the whole query set: nothing statistical to test
 K_LEAN = 4                    # seeds whose draws are also replayed through the Lean model
@@ -179,8 +183,11 @@ class CHECK(Check):
                   "trusted; frequencies are checked statistically. The thresholder clauses are proved for the expressions LIFTED "
                   "from ThresholdOperation.__call__ / _pmf_predict / predict (Generated/ThresholderSrc.lean), their hypotheses are "
                   "DERIVED for every model ThresholdOptimizer.fit produces (fitted_rules_valid_simple / _EO, "
-                  "fitted_pmf_is_distribution), and predict is row-wise in the draws for any draw sequence (predict_rowwise, "
-                  "predict_row_independent, predict_draw_count).")
+                  "fitted_pmf_is_distribution, and with no hypothesis beyond a successful fit: fitted_pmf_is_distribution_simple/_EO, "
+                  "fitted_pmf_monotone_noflip_simple/_EO), and predict is row-wise in the draws for any draw sequence (predict_rowwise, "
+                  "predict_row_independent, predict_draw_count). Regression: the returned value is a stored predictor's value with "
+                  "positive weight, never the zero placeholder (eg_regression_returns_stored_value); a weight-1 predictor is "
+                  "returned for every draw (choice_deterministic). EG row (1-p, p) is a distribution (eg_pmf_row_distribution).")
     design_ref = "DESIGN.md section 4, C10"
     quick_cases = 70
     thorough_cases = 600
@@ -196,7 +203,11 @@ class CHECK(Check):
             "(kind, data, configuration); non-trivial = the fitted model is randomised somewhere on the query set (some "
             f"0 < p < 1 / >= 2 predictors with positive weight). Each binomial test has false-alarm probability <= {ALPHA:g}; "
             "the number of tests of a run is the count of the tag 'binomial_test' in input_distribution (quick: < 1000, "
-            "so < 1e-6 per run; the outcome is deterministic for a given VERIF_SEED)")
+            f"so < 1e-6 per run; the outcome is deterministic for a given VERIF_SEED); one pooled Hoeffding test per randomised "
+            f"classification model (tag 'pooled_frequency_test', false-alarm probability <= {ALPHA_POOL:g} each). Tolerances: "
+            f"|reported p - exact p| <= {TOL:g}, p0 + p1 = 1 +- 1e-14 (measured max deviations 1.1e-16 / 5.6e-17), sum(weights_) = 1 "
+            "+- 1e-7 (LP solver). Frequency tests cover the first 8 query rows; the exact replay of the draws covers every row "
+            "and seed")
     explanation = ("theorems over the Lean model Pmf; correspondence: _pmf_predict and predict(random_state=seed) of fitted "
                    "models vs the compiled driver fed with interpolation_dict / weights_ / stored predictors' outputs and "
                    "the replayed RandomState draws; oracle: exact Fraction pmf, distribution/monotonicity/dependence "
@@ -204,8 +215,10 @@ class CHECK(Check):
     trusted = ("numpy.random.RandomState: rand(n) / choice draw one uniform number per row from [0,1), uniformly (trusted, not modelled)",
                "RandomState.choice(values, p) = values[searchsorted(cumsum(p), u, 'right')] (modelled by choiceIdx)",
                "the stored predictors (sklearn estimators) are black boxes: the model takes their outputs on the query set as inputs",
-               "hypotheses on fitted rules (p0,p1 >= 0, p0+p1 = 1 +- 1e-12, p_ignore, prediction_constant in [0,1]; flip=False => "
-               "both operators '>') are evaluated on every fitted model by the driver, not derived from the fitting code here")
+               "hypotheses on fitted rules (p0,p1 >= 0, p0+p1 = 1 +- 1e-14, p_ignore, prediction_constant in [0,1]; flip=False => "
+               "both operators '>') are evaluated on every fitted model by the driver AND derived from the fitting model "
+               "(fitted_rules_valid_simple/_EO); the EG hypotheses (weights_ a probability vector over ids 0..T-1, classifier "
+               "outputs in {0,1}) are evaluated on every fitted model, not derived (C08's subject)")
     assumptions = ("weights_ returned by the LP step sums to 1 up to the LP solver's tolerance (hypothesis checked with 1e-7)",
                    "scores and features are finite", "every group has both labels at fit time", "random_state is an int seed or a RandomState")
 
@@ -519,6 +532,20 @@ class CHECK(Check):
                 probs.append(Problem("property", f"{what}.predict: row {i} (query {case['query'][i]}) got label 1 in {int(cnt[i])} of "
                                                  f"{NS} seeds, reported P(1) = {p1[i]!r} (two-sided exact binomial tails "
                                                  f"{binom_tails(int(cnt[i]), NS, q) if 0 < q < 1 else 'degenerate'})", kind))
+        # pooled frequency test over ALL randomised rows and seeds (the per-row exact test needs |bias| >~ 0.15 at 400
+        # seeds; pooling ~10 rows sees ~0.04).  Labels are independent Bernoulli(p_i) under the property, so by Hoeffding
+        # P(|sum(label - p)| >= t) <= 2 exp(-2 t^2 / n): a rigorous false-alarm bound, no normal approximation.
+        rnd = [i for i in range(nq) if 0.0 < p1[i] < 1.0]
+        if rnd:
+            n_pool = NS * len(rnd)
+            dev = float(sum(int(cnt[i]) - NS * p1[i] for i in rnd))
+            bound = math.sqrt(n_pool / 2.0 * math.log(2.0 / ALPHA_POOL))
+            if abs(dev) > bound:
+                probs.append(Problem("property", f"{what}.predict: over the {len(rnd)} randomised query rows x {NS} seeds the number of "
+                                                 f"label-1 outcomes differs from the sum of the reported probabilities by {dev:+.1f} "
+                                                 f"(= {dev / n_pool:+.4f} per draw); |deviation| <= {bound:.1f} holds with probability "
+                                                 f">= 1 - {ALPHA_POOL:g} (Hoeffding) if labels are drawn with the reported probabilities",
+                                     "C10.bernoulli_iff(pooled frequency)"))
         for i in range(nq):
             if p1[i] == 1.0 and cnt[i] != NS or p1[i] == 0.0 and cnt[i] != 0:
                 probs.append(Problem("property", f"{what}.predict is not deterministic at row {i} where P(1) = {p1[i]}: {int(cnt[i])}/{NS} ones",
@@ -617,8 +644,11 @@ class CHECK(Check):
         want = [sum(wid.get(t, F(0)) * hx[t][i] for t in range(T)) for i in range(nq)]
         p1 = [float(v) for v in o["pmf1"]]
         p0 = [float(v) for v in o["pmf0"]]
+        # eg_pmf_range_slack: 0 <= p <= sum(weights_); the LP step returns weights_ whose sum may exceed 1 by the solver's
+        # tolerance (seen 4.4e-9, accepted up to W_SUM_TOL by the hypothesis check above), so the range bound follows it
+        slack = TOL + float(min(max(sum(w) - 1, F(0)), W_SUM_TOL))
         for i in range(nq):
-            if not (-TOL <= p1[i] <= 1 + TOL and -TOL <= p0[i] <= 1 + TOL) or abs(p0[i] + p1[i] - 1) > TOL:
+            if not (-slack <= p1[i] <= 1 + slack and -slack <= p0[i] <= 1 + slack) or abs(p0[i] + p1[i] - 1) > TOL:
                 probs.append(Problem("property", f"row {i}: reported pmf ({p0[i]!r}, {p1[i]!r}) is not a distribution", "C10.eg_pmf_range"))
                 break
         for i in range(nq):
@@ -644,7 +674,7 @@ class CHECK(Check):
         cols = [[float(v) for v in c] for c in o["pmf_cols"]]
         for t in range(T):
             exp = hx[t] if wid.get(t, 0) != 0 else [0.0] * nq
-            if len(cols) != T or any(abs(a - b) > 1e-15 for a, b in zip(cols[t], exp)):
+            if len(cols) != T or any(a != b for a, b in zip(cols[t], exp)):      # measured deviation on the clean tree: 0
                 probs.append(Problem("correspondence", f"_pmf_predict column {t} differs from stored predictor {t}'s outputs", "C10.eg_regression_pmf"))
                 break
         P = [[float(v) for v in row] for row in o["preds"]]
@@ -703,7 +733,7 @@ class CHECK(Check):
                 u = uniforms(seeds[k], nq)
                 cdf_pos = np.cumsum(pos_w) / np.sum(pos_w)
                 cdf_id = np.cumsum(id_w) / np.sum(id_w)
-                near = [min(min(abs(cdf_pos - u[i])), min(abs(cdf_id - u[i]))) <= 1e-12 for i in range(nq)]
+                near = [min(min(abs(cdf_pos - u[i])), min(abs(cdf_id - u[i]))) <= 1e-14 for i in range(nq)]
 
                 def parse(line):
                     return [None if t == "none" else float(proto.p_rat(t)) for t in line.split(",")]
@@ -763,6 +793,8 @@ class CHECK(Check):
                 if any(p in (0.0, 1.0) for p in p1):
                     tags.append("has_p_in_{0,1}")
                 tags += ["binomial_test"] * min(nq, N_STAT_ROWS)
+                if nontrivial:
+                    tags.append("pooled_frequency_test")
             else:
                 ids = o["ids"]
                 pos = sum(1 for v in o["weights"] if float(v) > 0)
@@ -777,6 +809,8 @@ class CHECK(Check):
                     nontrivial = any(0 < p < 1 for p in p1)
                     tags.append("randomised" if nontrivial else "deterministic_on_query")
                     tags += ["binomial_test"] * min(nq, N_STAT_ROWS)
+                    if nontrivial:
+                        tags.append("pooled_frequency_test")
                 else:
                     tags.append(f"loss={case['loss']}")
                     hx = o["hx"]
